@@ -15,6 +15,14 @@ CHECKS = {
             "Trusted: TLC, the abstraction one-hot tensor -> symbol sequence (harness/impl/base.py), CRC32 digests for 'not modified'. "
             "Zones 'either' (insert L-m<p<=L, empty delete span, randomize end=L) accept both outcomes.",
             "DESIGN.md §5 C01"),
+    "C18": (["CountingOps", "Counting", "Counting_Trace"],
+            "TLA+ spec (CountingOps/Counting) model-checked with TLC; all enumerated tables and sequences replayed into "
+            "tangermeme.annotate / tangermeme.kmers; random tables validated against Counting_Trace",
+            "TLC enumerates every annotation table with <=3 rows over a small grid of examples, annotations and spans (all overlap "
+            "configurations incl. gap = max_distance) and every short sequence for k-mers, with counts defined as set cardinalities; "
+            "each is executed and compared; larger random tables in all input forms are decided by the trace specification.",
+            "Trusted: TLC; integer-valued results are compared for equality; counts stay inside the dtype range.",
+            "DESIGN.md §5 C18"),
 }
 
 ALL = ["C%02d" % i for i in range(1, 21)]
